@@ -1,6 +1,7 @@
-from .checks import deps, pipeline, version, selfhost
+from .checks import deps, pipeline, version, selfhost, container
 
 CHECKS = {
+    "C02": lambda tier: container.run_c02(tier),
     "C05": lambda tier: deps.run_property("C05", tier),
     "C06": lambda tier: deps.run_property("C06", tier),
     "C07": lambda tier: deps.run_property("C07", tier),
